@@ -411,10 +411,9 @@ fn rand_word(r: &mut Rng, strands: usize, extra: usize) -> Vec<i32> {
 }
 
 /// split the edge `e` at its head: the head slot gets a fresh label; returns (tail label, head label)
-fn split_edge(d: &mut Diag, e: usize) -> (usize, usize) {
+fn split_edge(d: &mut Diag, e: usize, fresh: usize) -> (usize, usize) {
     let mut o = Orient::new(d);
     o.complete();
-    let fresh = max_label(d) + 1;
     for i in 0..d.len() { for j in 0..4 {
         if d[i].1[j] == e && o.dir[4 * i + j] == Some(true) { d[i].1[j] = fresh; return (e, fresh) }
     } }
@@ -424,8 +423,9 @@ fn rand_label(r: &mut Rng, d: &Diag) -> usize { let ls: Vec<usize> = label_count
 
 fn add_kink(r: &mut Rng, d: &mut Diag) {
     let e = rand_label(r, d);
-    let (a, b) = split_edge(d, e);
-    let k = max_label(d) + 1;
+    let fresh = max_label(d) + 1;
+    let (a, b) = split_edge(d, e, fresh);
+    let k = fresh + 1;
     let x = match r.below(4) { 0 => [a, k, k, b], 1 => [a, b, k, k], 2 => [k, a, b, k], _ => [k, k, b, a] };
     let pos = r.below(d.len() as u64 + 1) as usize;
     d.insert(pos, (if r.chance(1, 4) { CT::Xm } else { CT::X }, x));
@@ -433,13 +433,14 @@ fn add_kink(r: &mut Rng, d: &mut Diag) {
 
 /// a new circle that passes over `m` (not necessarily distinct) edges: a component that is never an under-strand
 fn add_over_circle(r: &mut Rng, d: &mut Diag, m: usize) {
-    let base = max_label(d) + 1 + m; // labels of the circle: base .. base+m-1 (chosen above the m fresh split labels)
+    let fresh0 = max_label(d) + 1;   // fresh labels of the m splits: fresh0 .. fresh0+m-1
+    let base = fresh0 + m;           // labels of the circle: base .. base+m-1
     let c = |t: usize| base + (t % m);
     for t in 0..m {
         let e = rand_label(r, d);
         // do not split the circle's own edges (it must stay over-only)
         let e = if e >= base && e < base + m { d[0].1[0] } else { e };
-        let (a, b) = split_edge(d, e);
+        let (a, b) = split_edge(d, e, fresh0 + t);
         let x = if r.bool() { [a, c(t), b, c(t + 1)] } else { [a, c(t + 1), b, c(t)] };
         let pos = r.below(d.len() as u64 + 1) as usize;
         d.insert(pos, (CT::X, x));
